@@ -8,6 +8,7 @@
 #include <new>
 #include <dlfcn.h>
 #include <malloc.h>
+#include <pthread.h>
 
 static std::uint64_t vec[4096];
 static int vn, vpos;
@@ -56,6 +57,10 @@ void verif_fail_alloc_at(std::uint64_t k) { alloc_count = 0; fail_at = k; }
 std::uint64_t verif_alloc_count(void) { return alloc_count; }
 std::uint64_t verif_live_allocs(void) { return live_allocs; }
 std::uint64_t verif_live_bytes(void) { return live_bytes; }
+static std::uint64_t mutex_held;
+std::uint64_t verif_mutex_held(void) { return mutex_held; }
+int pthread_mutex_lock(pthread_mutex_t* m) { static auto real = reinterpret_cast<int (*)(pthread_mutex_t*)>(dlsym(RTLD_NEXT, "pthread_mutex_lock")); int r = real(m); if (r == 0) mutex_held++; return r; }
+int pthread_mutex_unlock(pthread_mutex_t* m) { static auto real = reinterpret_cast<int (*)(pthread_mutex_t*)>(dlsym(RTLD_NEXT, "pthread_mutex_unlock")); int r = real(m); if (r == 0) mutex_held--; return r; }
 
 int posix_memalign(void** out, size_t al, size_t n) {
   if (should_fail()) return 12;
